@@ -112,6 +112,24 @@ func genC04(tier string, r *rng, emit func(string)) {
 			}
 		}
 	}
+	// Dense.CopyTo: every pair of layouts of source and destination (views are refused as not yet
+	// implemented, everything else is a raw copy of the windows), equal and merely equal-sized shapes
+	for _, dt := range []string{"f64", "i16", "str", "c128", "b"} {
+		for _, ls := range []string{"rm", "cm", "T", "slice", "mat", "cloneview"} {
+			for _, ld := range []string{"rm", "cm", "T", "slice"} {
+				for _, shs := range [][2][]int{{{2, 3}, {2, 3}}, {{2, 3}, {3, 2}}, {{2, 3}, {6}}, {{4}, {4}}, {{2, 3}, {2, 2}}, {{2, 2, 2}, {2, 2, 2}}} {
+					var p pb
+					preS, is := source(r, ls, shs[0], 1)
+					a := p.add(preS, is)
+					preD, id := source(r, ld, shs[1], 50)
+					b := p.add(preD, id)
+					p.ops = append(p.ops, fmt.Sprintf("copyto:%d:%d", a, b))
+					emit(fmt.Sprintf("prog %s %s", dt, p.prog()))
+				}
+			}
+		}
+		emit(fmt.Sprintf("prog %s new:rm:2,3:1;copyto:0:0", dt))
+	}
 	dts := []string{"f64", "i", "u8", "str", "f32", "c64", "b", "i8"}
 	for i := 0; i < n; i++ {
 		sh := randShape(r, 1, 4, 4)
